@@ -241,7 +241,7 @@ def match_known(known, prop, harness, check):
 PLAYBACK_RE = re.compile(r"(/// Test generated for harness.*?\n#\[test\]\nfn (kani_concrete_playback_\w+)\(\).*?\n}\n)", re.S)
 
 
-def replay(prop, harness, hk, tgt, logf, timeout=1500):
+def replay(prop, harness, hk, tgt, logf, timeout=3300):
     """Re-run one harness with concrete playback, append the generated unit test to the module
     of the harness and run it natively (dev profile, real code, no stubs).
     Returns (reproduced: bool|None, path, note)."""
